@@ -69,7 +69,8 @@ var pDBs = []int{0, 1, 3, 12}
 func genWriteOp(r *rand.Rand, now int64, relOK bool, spopOK bool) []string {
 	k := func() string { return "k" + strconv.Itoa(1+r.Intn(5)) }
 	v := func() string {
-		return pick(r, []string{"x", "yy", "", "10", "-3", "1.5", "a\r\nb", "hello world", "007", "ünï", "nul\x00x", "9999999999"})
+		return pick(r, []string{"x", "yy", "", "10", "-3", "1.5", "a\r\nb", "hello world", "007", "ünï", "nul\x00x", "9999999999",
+			"\"quoted\"", "\"a\\tb\"", "\"", "\"\"", "back\\slash", "{\"k\":1}", "[1,2]", "null", "\xff\xfe", "'single'"})
 	}
 	absMs := func() string { return itoa(now/1e6 + int64(1000*(1+r.Intn(5000)))) }
 	absS := func() string { return itoa(now/1e9 + int64(1+r.Intn(5000))) }
